@@ -18,6 +18,7 @@
 #include <datatypes/heap.h>
 #include <lp/lp.h>
 #include <mm/msg_allocator.h>
+#include <verif_hooks.h>
 
 #include <stdalign.h>
 #include <stdatomic.h>
@@ -67,12 +68,15 @@ void msg_queue_init(void)
 void msg_queue_fini(void)
 {
 	for(array_count_t i = 0; i < heap_count(mqp); ++i)
+		VH(VH_Q_FINI_HEAP, heap_items(mqp)[i].m, 0, 0);
+	for(array_count_t i = 0; i < heap_count(mqp); ++i)
 		msg_allocator_free(heap_items(mqp)[i].m);
 
 	heap_fini(mqp);
 
 	struct lp_msg *m = atomic_load_explicit(&queues[rid].list, memory_order_relaxed);
 	while(m != NULL) {
+		VH(VH_Q_FINI_LIST, m, 0, 0);
 		msg_allocator_free(m);
 		m = m->next;
 	}
@@ -92,6 +96,7 @@ void msg_queue_global_fini(void)
 static inline void msg_queue_insert_queued(void)
 {
 	struct lp_msg *m = atomic_exchange_explicit(&queues[rid].list, NULL, memory_order_acquire);
+	VH(VH_Q_SWAP, m, 0, 0);
 	while(m != NULL) {
 		struct q_elem qe = {.t = m->dest_t, .m = m};
 		heap_insert(mqp, q_elem_is_before, qe);
@@ -132,8 +137,13 @@ simtime_t msg_queue_time_peek(void)
 void msg_queue_insert(struct lp_msg *msg)
 {
 	_Atomic(struct lp_msg *) *list_p = &queues[lid_to_rid(msg->dest)].list;
+	VH(VH_Q_INSERT, msg, lid_to_rid(msg->dest), 0);
 	msg->next = atomic_load_explicit(list_p, memory_order_relaxed);
+	VH(VH_Q_CAS_GAP, msg, 0, 0);
 	while(unlikely(!atomic_compare_exchange_weak_explicit(list_p, &msg->next, msg, memory_order_release,
 	    memory_order_relaxed)))
+#ifdef ROOT_SIM_CORE_VERIF
+		if((VH(VH_Q_CAS_RETRY, msg, 0, 0), 1))
+#endif
 		spin_pause();
 }
